@@ -4,7 +4,8 @@
    (ev_aligned, is_io), C16_AlignedProofs2.v (aligned_guard), C16_Proofs.v (ref_op, ref_run, op_ok, ops_ok,
    op_guard, observe, trace_aligned). *)
 From Coq Require Import ZArith List.
-From PV Require Import Base.U64 C15.C15_Model C16.C16_Model C16.C16_Lists C16.C16_AlignedProofs C16.C16_AlignedProofs2 C16.C16_Proofs.
+From PV Require Import Base.U64 C15.C15_Model C15.C15_Spec C16.C16_Model C16.C16_Lists C16.C16_AlignedProofs C16.C16_AlignedProofs2 C16.C16_Proofs.
+From PV Require Import C16.C16_XGeneric C16.C16_XProofs C16.C16_XInst C16.C16_XOps.
 Import ListNotations.
 Local Open Scope Z_scope.
 
@@ -75,3 +76,68 @@ Example ops_ok_nonvacuous :
      OPwrite (mkSeg 0 [31; 32]) 13; OPread (mkSeg 0 [0; 0; 0; 0]) 15].
 Proof. exact ops_ok_ex. Qed.
 
+
+(* ------------------------------------------------------------------ composites *)
+(* Vocabulary: C16_XGeneric (nth_file, Inv = same number of sub-files with unchanged sizes, whole = concatenation
+   of the blocks of a layout), C16_XInst (fixed_x, fixed_content, stripe_x, stripe_content),
+   C16_XOps (equal_files, ref_op_fixed, ref_run_fixed, op_ok_fixed, ops_ok_fixed). *)
+
+(* FixedSizeLinearFile with either splitter (range_split for every unit size, range_split_power2 for 2^k) over
+   sub-files of exactly one unit each: pread/pwrite starting inside the composite return the plain file's count and
+   data, clipped at the composite's end; a write changes the logical content exactly like the (clipped) plain pwrite
+   and no sub-file's size *)
+Theorem linear_refines : forall u fs0 x fs buf off,
+  0 < u -> equal_files u fs0 -> zlen fs0 * u < 2 ^ 63 -> fixed_x u fs0 x ->
+  Inv fs0 fs -> 0 <= off < zlen fs0 * u -> 0 < zlen buf < 2 ^ 63 ->
+  let whole := fixed_content u fs0 fs in
+  (let r := x_pio x true fs buf off in
+   let d := f_pread whole (zlen buf) off in
+   rs_ret r = zlen d /\ rs_bufs r = [overwrite buf 0 d] /\ rs_files r = fs) /\
+  (let r := x_pio x false fs buf off in
+   rs_ret r = Z.min (zlen buf) (zlen fs0 * u - off) /\ rs_bufs r = [buf] /\ Inv fs0 (rs_files r) /\
+   fixed_content u fs0 (rs_files r) = f_pwrite whole (ztake (zlen fs0 * u - off) buf) off).
+Proof. exact linear_refines_l. Qed.
+Print Assumptions linear_refines.
+
+(* StripeFile over n equal sub-files of m stripes each *)
+Theorem stripe_refines : forall S m fs0 fs buf off,
+  is_pow2_64 S -> 0 < m -> equal_files (m * S) fs0 -> m * zlen fs0 * S < 2 ^ 63 ->
+  Inv fs0 fs -> 0 <= off < m * zlen fs0 * S -> 0 < zlen buf < 2 ^ 63 ->
+  let whole := stripe_content S m fs0 fs in
+  (let r := x_pio (stripe_x S m fs0) true fs buf off in
+   let d := f_pread whole (zlen buf) off in
+   rs_ret r = zlen d /\ rs_bufs r = [overwrite buf 0 d] /\ rs_files r = fs) /\
+  (let r := x_pio (stripe_x S m fs0) false fs buf off in
+   rs_ret r = Z.min (zlen buf) (m * zlen fs0 * S - off) /\ rs_bufs r = [buf] /\ Inv fs0 (rs_files r) /\
+   stripe_content S m fs0 (rs_files r) = f_pwrite whole (ztake (m * zlen fs0 * S - off) buf) off).
+Proof. exact stripe_refines_l. Qed.
+Print Assumptions stripe_refines.
+
+(* sequences of pread/pwrite/preadv/pwritev (through VirtualFile::piov_copy, every segmentation)/fstat on the
+   composites = the same sequence on ONE plain file of fixed size *)
+Theorem ops_refine_plain_linear : forall u fs0 x ops fs,
+  0 < u -> equal_files u fs0 -> zlen fs0 * u < 2 ^ 63 -> fixed_x u fs0 x ->
+  Inv fs0 fs -> ops_ok_fixed (fixed_content u fs0 fs) ops ->
+  map observe (fst (run_ops (AdX x) fs ops)) = fst (ref_run_fixed (fixed_content u fs0 fs) ops) /\
+  Inv fs0 (snd (run_ops (AdX x) fs ops)) /\
+  fixed_content u fs0 (snd (run_ops (AdX x) fs ops)) = snd (ref_run_fixed (fixed_content u fs0 fs) ops).
+Proof. exact linear_ops_refine_l. Qed.
+Print Assumptions ops_refine_plain_linear.
+
+Theorem ops_refine_plain_stripe : forall S m fs0 ops fs,
+  is_pow2_64 S -> 0 < m -> equal_files (m * S) fs0 -> m * zlen fs0 * S < 2 ^ 63 ->
+  Inv fs0 fs -> ops_ok_fixed (stripe_content S m fs0 fs) ops ->
+  map observe (fst (run_ops (AdX (stripe_x S m fs0)) fs ops)) = fst (ref_run_fixed (stripe_content S m fs0 fs) ops) /\
+  Inv fs0 (snd (run_ops (AdX (stripe_x S m fs0)) fs ops)) /\
+  stripe_content S m fs0 (snd (run_ops (AdX (stripe_x S m fs0)) fs ops)) =
+    snd (ref_run_fixed (stripe_content S m fs0 fs) ops).
+Proof. exact stripe_ops_refine_l. Qed.
+Print Assumptions ops_refine_plain_stripe.
+
+Example composites_nonvacuous :
+  let fs0 := [[1; 2; 3; 4]; [5; 6; 7; 8]; [9; 10; 11; 12]] in
+  equal_files 4 fs0 /\ is_pow2_64 4 /\ fixed_x 4 fs0 (mkX (XFixedP2 4) 3 12) /\ fixed_x 4 fs0 (mkX (XFixed 4) 3 12) /\
+  fixed_content 4 fs0 fs0 = [1; 2; 3; 4; 5; 6; 7; 8; 9; 10; 11; 12] /\
+  stripe_content 2 2 fs0 fs0 = [1; 2; 5; 6; 9; 10; 3; 4; 7; 8; 11; 12] /\ equal_files (2 * 2) fs0 /\
+  ops_ok_fixed (fixed_content 4 fs0 fs0) [OPwrite (mkSeg 0 [21; 22; 23]) 10; OPreadv [mkSeg 0 [0; 0]; mkSeg 0 [0; 0; 0]] 3; OFstat].
+Proof. exact composites_ex. Qed.
